@@ -53,7 +53,12 @@ def main():
         groups.setdefault(m["pid"], []).append(m)   # same property sequentially: replay files are per property
 
     def run_group(ms):
-        return [run_one(m) for m in ms]
+        # first the unmodified copy: a check that already reports on the unchanged tree would make every breakage look "reported"
+        base = run_one({"name": "(unmodified)", "pid": ms[0]["pid"], "edits": [], "negative": True})
+        if base["result"] != "ok":
+            base["result"] = "BASELINE-NOT-CLEAN"
+            return [base] + [{"name": m["name"], "pid": m["pid"], "result": "BASELINE-NOT-CLEAN"} for m in ms]
+        return [base] + [run_one(m) for m in ms]
     with ThreadPoolExecutor(max_workers=3) as ex:
         res = [r for grp in ex.map(run_group, groups.values()) for r in grp]
     for r in res:
